@@ -17,7 +17,7 @@ reg(Prop("C13", "irrigation strategies honour their contracts",
     "Monitor: IrrDay column against dap, dates, schedule and a wrapper capturing the decision's inputs on real runs"))
 
 reg(Prop("C19", "shallow groundwater behaves consistently",
-    [("gw", 12000, 120000), ("inputs", 1500, 20000), ("initstate", 400, 6000)],
+    [("gw", 12000, 120000), ("inputs", 1500, 20000), ("initstate", 400, 6000), ("runc", 40, 400)],
     trace_mon("C19", 50, 800, gw=lambda r: r.random() < 0.8),
     [R_AX, "modelled: check_groundwater_table.py, capillary_rise.py, groundwater_inflow.py (Water/Groundwater.v); the water-table series (read_groundwater_table) in Init/Inputs.v when claimed"],
     [EXACT, "capillary rise may exceed adjusted field capacity by the 5e-5 rounding of round(fcadj-th,4) (theorem capillary_cap; capillary_in_bounds_refuted shows th can pass th_s by that amount when fcadj = th_s)"],
@@ -208,9 +208,20 @@ reg(Prop("C11", "inputs are not consumed by a run",
     replay=lambda d: _base.replay_worker(monitors2.worker_C11, d),
     extra_obl=["translator run on the current source (fail-closed)"]))
 
+def _c14_monitor(ctx):
+    n = 25 if ctx["tier"] == "quick" else 440
+    pl = [{"cfg": c} for c in _base.draw_configs("C14", n)]
+    # directed part: windows early in a long weather file whose end date is then extended by DECADES (to the end of the file)
+    long_files = ["champion_climate.txt", "cordoba_climate.txt", "brussels_climate.txt"]
+    pl += [{"cfg": c, "long_extension": True} for c in
+           _base.draw_configs("C14long", 5 if ctx["tier"] == "quick" else 60, wfile=lambda r: r.choice(long_files), early=True, seasons=lambda r: r.choice([1, 2]))]
+    return _base.run_monitor(monitors2.worker_C14, pl, timeout=1500)
+_c14_monitor.worker = monitors2.worker_C14; _c14_monitor.payload = None
+
+
 reg(Prop("C14", "no look-ahead: past outputs do not depend on future weather",
     [("clock", 120, 1200), ("inputs", 2000, 20000), ("day", 2000, 30000), ("runc", 36, 400)],
-    worker_mon("C14", monitors2.worker_C14, 30, 500, timeout=1500, payload=lambda c, i: {"cfg": c, "long_extension": i % 5 == 1}),
+    _c14_monitor,
     ["all theorems 'Closed under the global context'; Clock.v theorems hold for every physics",
      "that one day's processes read only that day's weather record is the typing of Clock.proc (one W argument) tied by the Day.v replay (weather_step fields) and the clock suite; "
      "that the reset reads the weather only for thermal-time crops is the regenerated fact reset_weather_guard_ok (C08.v)"],
